@@ -136,7 +136,12 @@ def eval_doc(case):
     doc, as_bytes, multi = case
     _warm()
     text, positions = safety.render(doc)
-    if multi:
+    if multi == 2:
+        # behind a document that loads and whose %TAG directive gives the same shorthands a core meaning: what a directive
+        # defined ends with its document, so '!str' / '!seq' / '!map' are local (non-core) tags again in the generated document
+        text, positions = safety.render(dict(doc, explicit=True))
+        text = "%TAG ! tag:yaml.org,2002:\n--- [!str a, !seq [!map {}], !int 1, !!str b]\n" + text
+    elif multi:
         text2, positions2 = safety.render(dict(doc, explicit=True))
         text = text + text2
         positions = positions + positions2
@@ -156,6 +161,8 @@ def eval_doc(case):
         cl.add("foreign-tag:consumed")
     if not positions:
         cl.add("no-foreign-tag")
+    if multi == 2:
+        cl.add("behind-a-document-that-redefines-the-primary-handle")
     failures = []
     evals = 0
     mon = get_monitor()
@@ -214,7 +221,7 @@ def registry_tags():
 
 def doc_cases():
     fams = safety.OBJECT_FAMILIES + [safety.NAME_FAMILY]
-    return st.tuples(safety.documents(fams, registry_tags=registry_tags()), st.booleans(), st.sampled_from([False, False, True]))
+    return st.tuples(safety.documents(fams, registry_tags=registry_tags()), st.booleans(), st.sampled_from([False, False, True, 2]))
 
 
 # ------------------------------------------------------------------------------------------------
